@@ -278,6 +278,12 @@ func runSched(c *vh.Ctx, scen any, h vsched.Harness, bound int, delay bool, shar
 	ex := &vsched.Explorer{T: c.T, H: h, Bound: bound, Delay: delay, Deadline: c.Deadline, Shard: shard, Shards: shards,
 		OnExec: func(outcome string, tr *vsched.Trace) {
 			c.Outcome(c.Scenario[:strings.IndexAny(c.Scenario+" ", " ")] + "|" + outcome)
+			if f := os.Getenv("VERIF_TRACE"); f != "" && f != "1" {
+				if fh, err := os.OpenFile(f, os.O_APPEND|os.O_CREATE|os.O_WRONLY, 0o644); err == nil {
+					fmt.Fprintf(fh, "%s %v\n", outcome, tr.Choices())
+					fh.Close()
+				}
+			}
 			if c.WantSample() && len(tr.Decisions) >= 4 {
 				c.Sample(map[string]any{"scenario": c.Scenario, "schedule": tr.Choices(), "outcome": outcome})
 			}
